@@ -27,6 +27,7 @@ import (
 	"google.golang.org/grpc/status"
 	anypb "google.golang.org/protobuf/types/known/anypb"
 
+	"istio.io/istio/pilot/pkg/features"
 	"istio.io/istio/pilot/pkg/model"
 	v3 "istio.io/istio/pilot/pkg/xds/v3"
 )
@@ -136,6 +137,11 @@ func validateProxyAuthentication(proxy *model.Proxy, w *model.WatchedResource) e
 	if proxy.VerifiedIdentity == nil {
 		log.Warnf("proxy %s is not authorized to receive debug. Ensure you are connecting over TLS port and are authenticated.", proxy.ID)
 		return status.Error(codes.Unauthenticated, "authentication required")
+	}
+	// An identity without a namespace proves no namespace. Downstream an empty caller namespace means
+	// "unrestricted"; the HTTP path (AuthorizeDebugRequest) refuses such callers as well.
+	if features.EnableDebugEndpointAuth && proxy.VerifiedIdentity.Namespace == "" {
+		return status.Error(codes.PermissionDenied, "debug info is not available for an identity without namespace")
 	}
 	if w.ResourceNames == nil || len(w.ResourceNames) != 1 {
 		return status.Error(codes.InvalidArgument, "exactly one debug request is required")
